@@ -3,3 +3,4 @@ import NB.Base
 import NB.Wire
 import NB.Model.AddSub
 import NB.Drv.C01
+import NB.Drv.C05
